@@ -49,6 +49,20 @@ SYN = {"uint8": ["BYTE", "uint8_t", "UCHAR"], "uint16": ["WORD", "unsigned short
 NOISE = [" ", "  ", "\t", "\n", "\n\n  ", " /* c */ ", "/**/", "/* two\n   lines */", " // eol\n", "/* it's */", "\r\n"]
 
 
+# conflicting re-declarations of an existing type name NAME in the other syntactic forms that register a name
+REDECL_FORMS = {
+    "typedef_struct_tag": "typedef struct {name} {{ uint8 z; }} {fresh};",
+    "typedef_union_tag": "typedef union {name} {{ uint8 z; }} {fresh};",
+    "typedef_struct_tag_two": "typedef struct {name} {{ uint8 z; }} {fresh}, {fresh}b;",
+    "typedef_anon_struct": "typedef struct {{ uint8 z; }} {name};",
+    "typedef_struct_second_name": "typedef struct {{ uint8 z; }} {fresh}, {name};",
+    "struct": "struct {name} {{ uint8 z; }};",
+    "union": "union {name} {{ uint8 z; }};",
+    "enum": "enum {name} : uint8 {{ Zz{fresh} }};",
+    "flag": "flag {name} : uint8 {{ Zz{fresh} }};",
+}
+
+
 def gen_case(rng: random.Random, tier: str):
     frags = []
     types = []      # (name, frag index) usable as field types
@@ -203,8 +217,13 @@ def gen_case(rng: random.Random, tier: str):
                               "via": rng.choice(["load", "add_type_str", "add_type_obj"])})
         elif r < 0.55 and tds:
             f = rng.choice(tds)
-            alias_ops.append({"op": "redeclare_other", "pos": pos, "name": f["names"][0], "target": rng.choice(["double", "int128", "float16"]), "frag": frags.index(f),
-                              "via": rng.choice(["load", "add_type_str", "add_type_obj"])})
+            via = rng.choice(["load", "add_type_str", "add_type_obj"])
+            if rng.random() < 0.4:
+                # the conflicting re-declaration in another syntactic form, of ANY declared type name (alias, structure, enum)
+                f = rng.choice([g for g in frags if g["kind"] != "define"])
+                via = rng.choice(sorted(REDECL_FORMS))
+            alias_ops.append({"op": "redeclare_other", "pos": pos, "name": rng.choice(f["names"]), "target": rng.choice(["double", "int128", "float16"]),
+                              "frag": frags.index(f), "via": via})
         elif r < 0.75:
             alias_ops.append({"op": "cycle", "pos": pos, "len": rng.randint(1, 4), "use": rng.choice(["resolve", "attr", "field", "sizeof"])})
         elif r < 0.9:
@@ -336,7 +355,10 @@ def run_history(case, perturbed, stats):
                 text = f"typedef {op['target']} {op['name']};"
                 try:
                     via = op.get("via", "load")
-                    if via == "load":
+                    if via in REDECL_FORMS:
+                        text = REDECL_FORMS[via].format(name=op["name"], fresh=f"fr{pos}_{opi}")
+                        cs.load(text)
+                    elif via == "load":
                         cs.load(text)
                     elif via == "add_type_str":
                         cs.add_type(op["name"], op["target"])
@@ -354,6 +376,11 @@ def run_history(case, perturbed, stats):
                 if k == "redeclare_other":
                     if ok:
                         raise Violation("alias", "other_target_accepted", f"{text!r} silently re-bound an existing alias to another type")
+                    # multi-name forms may have registered their OTHER, new names before the conflict was detected (the
+                    # statement does not forbid that): every entry that existed before must be untouched
+                    for fr in (f"fr{pos}_{opi}", f"fr{pos}_{opi}b"):
+                        if fr not in before:
+                            cs.typedefs.pop(fr, None)
                     if dict(cs.typedefs) != before:
                         raise Violation("alias", "table_changed_by_rejected_redeclaration", text)
             elif k == "typedef_chain":
